@@ -102,7 +102,12 @@ class Ctx:
     def violation(self, oracle, sig, case, expected=None, observed=None, note=None):
         k = oracle
         self.vcount[k] = self.vcount.get(k, 0) + 1
-        if len([v for v in self.violations if v["oracle"] == oracle]) < 40:
+        # keep at most 40 recorded cases per (oracle, signature) and unit: a flood of one class (e.g. a known finding)
+        # must never crowd out a different class that shares its oracle name
+        sk = (oracle, json.dumps(sig, sort_keys=True, default=repr))
+        self._kept = getattr(self, "_kept", {})
+        self._kept[sk] = self._kept.get(sk, 0) + 1
+        if self._kept[sk] <= 40:
             self.violations.append({
                 "property": self.check_id, "oracle": oracle, "sig": sig,
                 "case": case() if callable(case) else case,
